@@ -158,7 +158,8 @@ def gen_domain_spec(rng, finite_only=False, small=False):
     if not finite_only:
         kinds += ["uniform", "loguniform", "quniform", "single_uniform", "uniform", "loguniform",
                   "loguniform_odd", "uniform_odd", "reverseloguniform",
-                  "single_loguniform", "single_loguniform", "single_reverseloguniform", "single_uniform_odd"]
+                  "single_loguniform", "single_loguniform", "single_reverseloguniform", "single_uniform_odd",
+                  "quniform_odd", "qloguniform_odd"]
     k = rng.choice(kinds)
     if k == "uniform":
         lo = rng.choice([0.0, -1.5, 0.25, 10.0])
@@ -166,6 +167,10 @@ def gen_domain_spec(rng, finite_only=False, small=False):
     if k == "loguniform":
         lo = rng.choice([1e-4, 0.01, 1.0])
         return [k, lo, lo * rng.choice([10.0, 1000.0])]
+    if k == "quniform_odd":          # upper bound k*q which the float product does not reproduce (3*0.1 > 0.3)
+        return ["quniform"] + rng.choice([[0.1, 0.3, 0.1], [0.1, 0.7, 0.1], [0.2, 0.6, 0.2]])
+    if k == "qloguniform_odd":
+        return ["qloguniform"] + rng.choice([[0.1, 0.7, 0.1], [0.1, 0.3, 0.1]])
     if k == "loguniform_odd":        # bounds b with exp(log(b)) != b
         return ["loguniform"] + rng.choice([[1e-6, 0.1], [1e-5, 1e-2], [0.3, 30.0], [1e-2, 0.3]])
     if k == "uniform_odd":
@@ -237,6 +242,8 @@ def build_domain(spec):
         return cs.logfinrange(spec[1], spec[2], spec[3], cast_int=spec[4])
     if k == "quniform":
         return cs.quniform(spec[1], spec[2], spec[3])
+    if k == "qloguniform":
+        return cs.qloguniform(spec[1], spec[2], spec[3])
     if k == "qrandint":
         return cs.qrandint(spec[1], spec[2], spec[3])
     raise AssertionError(k)
@@ -383,8 +390,8 @@ def true_size(space):
             k = len(set(d.values))
         elif isinstance(d.get_sampler(), Quantized):
             q = d.get_sampler().q
-            k = len({d.cast(round(i) * q) for i in range(int(np.floor(d.lower / q)), int(np.ceil(d.upper / q)) + 1)
-                     if d.lower <= round(i) * q <= d.upper})
+            k = len({d.cast(min(max(i * q, d.lower), d.upper))
+                     for i in range(int(np.floor(d.lower / q + 0.5)), int(np.floor(d.upper / q + 0.5)) + 1)})
         elif isinstance(d, Integer):
             k = d.upper - d.lower + 1
         elif isinstance(d, Float):
@@ -1500,6 +1507,14 @@ def run(ctx, replay=None):
                                   max_suggest=n, ops=[rng.choice(["suggest", "report", "report", "report"]) for _ in range(n * 8)],
                                   metrics=gen_metrics(rng, n * 4), max_resource_attr="epochs",
                                   directed="pause_resume_with_max_resource_attr"))
+        for kind in ("fifo-random", "fifo-bayesopt", "hb-stopping-random", "pbt"):
+            for _ in range(ctx.n(2, 10)):       # quantised float domains: draws which round onto the upper bound
+                cases.append(dict(kind="sched", sched=kind, retype_trial_configs=False, seed=rng.randrange(10 ** 6), pts=[],
+                                  spec=[["a", "dom", ["quniform", 0.1, 0.3, 0.1]], ["b", "dom", ["qloguniform", 0.1, 0.7, 0.1]],
+                                        ["c", "dom", ["uniform", 0.0, 1.0]]],
+                                  num_init_random=50 if kind != "fifo-bayesopt" else 3, max_suggest=12 if kind != "fifo-bayesopt" else 7,
+                                  ops=[rng.choice(["suggest", "suggest", "report", "complete"]) for _ in range(40)],
+                                  metrics=gen_metrics(rng, 40), directed="quantised_float_bounds"))
         for _ in range(ctx.n(10, 40)):     # DEHB driven until a 30-configuration space is (almost) used up
             cases.append(dict(kind="sched", sched="dehb", retype_trial_configs=False, seed=rng.randrange(10 ** 6), pts=[],
                               spec=[["a", "dom", ["randint", 0, 5]], ["b", "dom", ["choice", ["0", "1", "2", "3", "4"]]]],
